@@ -116,6 +116,7 @@ func (fe *FuncEnc) callCommon(v ssa.Value, c *ssa.CallCommon, st *State, args []
 		fe.builtin(v, b, c, st, args, pos)
 		return
 	}
+	fe.callSiteAsserts(v, c, st, args, pos)
 	var callee *ssa.Function
 	var contract *FuncContract
 	var paramNames []string
@@ -910,4 +911,45 @@ func varargElems(sl ssa.Value) []ssa.Value {
 		}
 	}
 	return out
+}
+
+// callSiteAsserts proves the "callsite" clauses of the function under proof at a call: the callee's
+// name (method name for interface calls, full name for static calls) must contain the clause's
+// callee string. arg0.. are the call's arguments (receiver first); locals resolve to the value they
+// have at the call.
+func (fe *FuncEnc) callSiteAsserts(v ssa.Value, c *ssa.CallCommon, st *State, args []string, pos token.Pos) {
+	root := fe.root()
+	if root.c == nil || len(root.c.CallSites) == 0 || fe != root {
+		return
+	}
+	name := ""
+	var argVals []ssa.Value
+	if c.IsInvoke() {
+		name = "(" + typeLabelNoPkg(c.Value.Type()) + ")." + c.Method.Name()
+		argVals = append([]ssa.Value{c.Value}, c.Args...)
+	} else if callee := c.StaticCallee(); callee != nil {
+		name = fnFullName(callee)
+		argVals = c.Args
+	} else {
+		return
+	}
+	var at ssa.Instruction
+	if ins, ok := v.(ssa.Instruction); ok {
+		at = ins
+	}
+	for _, cs := range root.c.CallSites {
+		// the clause names the function or method exactly (its last name component)
+		if name != cs.Callee && !strings.HasSuffix(name, "."+cs.Callee) {
+			continue
+		}
+		env := fe.envAt(st, nil)
+		env.callAt = at
+		for i, a := range args {
+			if i < len(argVals) {
+				env.vars[fmt.Sprintf("arg%d", i)] = EV{T: a, Typ: argVals[i].Type()}
+			}
+		}
+		goal := fe.evalBool(env, cs.Clause.Expr, cs.Clause.Where)
+		fe.oblige(st, "callsite", cs.Clause.Label, goal, pos, "call-site assertion at "+cs.Callee+": "+cs.Clause.Src)
+	}
 }
